@@ -49,6 +49,8 @@ type op struct {
 	Fail    bool     // Mount/Check/Unmount: the filesystem call is made to fail
 	Tag     int64    // Init: configuration tag
 	IFail   initFail // Init: early failure injected
+	Retry   bool     // Init: byte-identical repetition (same root, same config bytes) of the previous Init of the case
+	BlkRoot bool     // Init: the root lies below <case>/blk<tag>, a regular file while IFail == failCtor
 	Restore []int    // Init: restoration mounts of these mountpoints fail
 	LabelID int      // Mount/Check: labels identity
 }
@@ -61,6 +63,9 @@ func (o op) String() string {
 	switch o.Kind {
 	case opInit:
 		s := fmt.Sprintf("I%d%s", o.Tag, o.IFail)
+		if o.Retry {
+			s = fmt.Sprintf("I%d=again%s", o.Tag, o.IFail)
+		}
 		if len(o.Restore) > 0 {
 			s += fmt.Sprintf("!restore%v", o.Restore)
 		}
@@ -117,6 +122,7 @@ func genInit(rng *prng.R, nmp int, tag *int64, grpc bool) op {
 		o.IFail = failCfg2
 	default:
 		o.IFail = failCtor
+		o.BlkRoot = true
 	}
 	for m := 0; m < nmp; m++ {
 		if rng.Chance(1, 6) {
@@ -152,25 +158,47 @@ func genSeqCase(rng *prng.R, idx int, grpcOneIn int) seqCase {
 			return op{Kind: opUnmount, MP: pickMP(), Fail: rng.Chance(1, 6)}
 		}
 	}
+	// addInit appends an Init and, when a fault was injected into it, with
+	// probability 1/2 the byte-identical request again (what a snapshotter that is
+	// restarted by its supervisor sends): two times out of three with the fault gone,
+	// otherwise with the fault still there; sometimes one request in between.
+	addInit := func() {
+		o := genInit(rng, c.NMP, &tag, c.GRPC)
+		c.Ops = append(c.Ops, o)
+		if (o.IFail != failNone || len(o.Restore) > 0) && rng.Chance(1, 2) {
+			if rng.Chance(1, 4) {
+				c.Ops = append(c.Ops, request())
+			}
+			again := o
+			again.Retry = true
+			if rng.Chance(2, 3) {
+				if again.IFail != failBadJSON { // undecodable bytes stay undecodable
+					again.IFail = failNone
+				}
+				again.Restore = nil
+			}
+			c.Ops = append(c.Ops, again)
+		}
+	}
 	fresh := true // a process that has not been sent an Init yet
 	for len(c.Ops) < n {
 		if fresh {
 			fresh = false
 			if rng.Chance(5, 6) {
-				c.Ops = append(c.Ops, genInit(rng, c.NMP, &tag, c.GRPC))
+				addInit()
 				continue
 			}
 			// requests before initialisation
 			for k := rng.Range(1, 3); k > 0; k-- {
 				c.Ops = append(c.Ops, request())
 			}
-			c.Ops = append(c.Ops, genInit(rng, c.NMP, &tag, c.GRPC))
+			addInit()
 			continue
 		}
 		x := rng.Intn(100)
 		switch {
 		case x < 14:
-			c.Ops = append(c.Ops, genInit(rng, c.NMP, &tag, c.GRPC))
+			addInit()
 		case x < 23:
 			c.Ops = append(c.Ops, op{Kind: opRestart})
 			fresh = true
@@ -178,7 +206,7 @@ func genSeqCase(rng *prng.R, idx int, grpcOneIn int) seqCase {
 			c.Ops = append(c.Ops, op{Kind: opClose})
 			for k := rng.Intn(4); k > 0; k-- {
 				if rng.Chance(1, 4) {
-					c.Ops = append(c.Ops, genInit(rng, c.NMP, &tag, c.GRPC))
+					addInit()
 				} else {
 					c.Ops = append(c.Ops, request())
 				}
@@ -202,6 +230,7 @@ type model struct {
 	initsInProc     int  // Init calls issued to this process
 	everConstructed bool // some Init of this process got as far as a filesystem
 	lastInitGen     int
+	curGen          int // generation of the instance new mounts must use (0: none): the last one constructed in this process
 	lastInitOK      bool
 	lastInitBuilt   bool // the last Init call constructed a filesystem
 	closed          bool
@@ -218,8 +247,8 @@ type seqRunner struct {
 	trace []string
 	stop  bool // a violation whose consequences are not worth following: end the case
 	// what made the case non-trivial
-	ntReinitOld, ntRestore, ntFailedInitReq bool
-	initCount                               int
+	ntReinitOld, ntRestore, ntFailedInitReq, ntRetry bool
+	initCount                                        int
 }
 
 func (s *seqRunner) replay(i int) map[string]any {
@@ -344,7 +373,7 @@ func runSeqCase(r *vf.Run, c seqCase, dir string) {
 	if !s.m.closed {
 		_ = w.die()
 	}
-	if s.ntReinitOld || s.ntRestore || s.ntFailedInitReq {
+	if s.ntReinitOld || s.ntRestore || s.ntFailedInitReq || s.ntRetry {
 		r.NonTrivial(c.desc())
 	}
 	if s.ntReinitOld {
@@ -355,6 +384,9 @@ func runSeqCase(r *vf.Run, c seqCase, dir string) {
 	}
 	if s.ntFailedInitReq {
 		r.Count("cases_request_after_failed_init", 1)
+	}
+	if s.ntRetry {
+		r.Count("cases_identical_retry_after_failed_init", 1)
 	}
 	if c.Idx < 4 {
 		r.Sample(map[string]any{"stage": "seq", "case": c.Idx, "history": c.desc(), "observed": strings.Join(s.trace, " ; ")})
@@ -440,7 +472,16 @@ func (s *seqRunner) exec(i int, o op) {
 			case failCfg2:
 				w.failCfg.Store(2)
 			}
-			err = w.doInit(ctx, w.rootFor(o.Tag, o.IFail == failCtor), o.Tag, o.IFail == failBadJSON)
+			if o.BlkRoot {
+				// construction fails while <case>/blk<tag> is a regular file (ENOTDIR);
+				// removing it clears the fault without changing the request
+				blk := w.blocker(o.Tag)
+				_ = os.RemoveAll(blk)
+				if o.IFail == failCtor {
+					_ = os.WriteFile(blk, []byte("x"), 0o644)
+				}
+			}
+			err = w.doInit(ctx, w.rootFor(o.Tag, o.BlkRoot), o.Tag, o.IFail == failBadJSON)
 		case opMount:
 			if o.Fail {
 				fl.mount[o.MP] = true
@@ -598,6 +639,27 @@ func (s *seqRunner) judgeInit(i int, o op, err error, events []fsEvent, servedBe
 	scn := s.scenario(o)
 	r.Count("scenario_"+scn, 1)
 	built := w.instOfGen(gen)
+	// An Init may legitimately keep the filesystem it already has when that one was
+	// built from exactly this root and configuration; it then plays the part of the
+	// instance of this Init.
+	var reused *inst
+	if built == nil && err == nil && m.curGen > 0 {
+		if prev := w.instOfGen(m.curGen); prev != nil && prev.proc == w.proc && prev.tag == o.Tag && prev.root == w.rootFor(o.Tag, o.BlkRoot) {
+			reused = prev
+			r.Count("inits_reusing_the_current_filesystem", 1)
+		}
+	}
+	restoreGen := gen
+	if reused != nil {
+		restoreGen = reused.gen
+	}
+	if o.Retry {
+		r.Count("inits_identical_retry", 1)
+		if !m.lastInitOK && m.initsInProc > 0 {
+			r.Count("inits_identical_retry_after_failed_init", 1)
+			s.ntRetry = true
+		}
+	}
 	if len(servedBefore) > 0 {
 		r.Count("inits_with_live_mounts", 1)
 	}
@@ -609,7 +671,7 @@ func (s *seqRunner) judgeInit(i int, o op, err error, events []fsEvent, servedBe
 				s.violate(i, "init:unmounts-existing-mount", "Init unmounted "+mpName(e.MP)+" which was being served", true)
 			}
 		case evMount:
-			if e.Gen != gen {
+			if e.Gen != restoreGen {
 				s.violate(i, "restore:mounted-by-stale-instance", fmt.Sprintf("restoration during Init #%d mounted %s in the instance of generation %d", gen, mpName(e.MP), e.Gen), true)
 			}
 			if e.MountedAny || len(servedBefore[e.MP]) > 0 {
@@ -631,15 +693,22 @@ func (s *seqRunner) judgeInit(i int, o op, err error, events []fsEvent, servedBe
 	r.Count("restoration_mounts_ok", restoredOK)
 	r.Count("restoration_mounts_failed", restoreFailed)
 	if built != nil {
-		if built.tag != o.Tag || built.root != w.rootFor(o.Tag, false) {
+		if built.tag != o.Tag || built.root != w.rootFor(o.Tag, o.BlkRoot) {
 			s.violate(i, "init:instance-config-mismatch", fmt.Sprintf("Init(config %d) constructed its filesystem from config %d root %s", o.Tag, built.tag, filepath.Base(built.root)), true)
 		}
 	}
 	if err == nil {
-		if built == nil {
-			// hook never reached although Init reported success: undecidable here
-			r.Inconclusive("Init returned nil but the filesystem-wrap hook was not reached")
-			s.stop = true
+		if built == nil && reused == nil {
+			// "new mounts use the new configuration": Init reported success for this root
+			// and configuration, but it constructed no filesystem from them and the one the
+			// manager holds (if any) was built from another root/configuration (H7 sits
+			// right behind the construction inside Init: trusted base).
+			have := "none"
+			if prev := w.instOfGen(m.curGen); m.curGen > 0 && prev != nil {
+				have = fmt.Sprintf("generation %d built from config %d root %s", prev.gen, prev.tag, filepath.Base(prev.root))
+			}
+			s.violate(i, "init:success-without-filesystem-of-requested-config@"+scn,
+				fmt.Sprintf("Init(config %d, root %s) reported success without constructing a filesystem; current filesystem: %s", o.Tag, filepath.Base(w.rootFor(o.Tag, o.BlkRoot)), have), true)
 			return
 		}
 		if restoreFailed > 0 {
@@ -671,9 +740,10 @@ func (s *seqRunner) judgeInit(i int, o op, err error, events []fsEvent, servedBe
 	m.initsInProc++
 	m.lastInitGen = gen
 	m.lastInitOK = err == nil
-	m.lastInitBuilt = built != nil
+	m.lastInitBuilt = built != nil || reused != nil
 	if built != nil {
 		m.everConstructed = true
+		m.curGen = gen
 	}
 	s.initCount++
 }
@@ -725,7 +795,11 @@ func (s *seqRunner) judgeMount(i int, o op, err error, events []fsEvent, before,
 			s.violate(i, "double-mount:mount-request-for-live-mountpoint", "Mount("+mp+") mounted it again although generation "+genList(before[o.MP])+" was serving it", true)
 			return
 		}
-		if e.Gen != m.lastInitGen {
+		want := m.curGen
+		if st == stFailedReinit {
+			want = 0 // the last Init built nothing: every instance is stale
+		}
+		if e.Gen != want {
 			if !e.OK {
 				continue
 			}
@@ -736,7 +810,7 @@ func (s *seqRunner) judgeMount(i int, o op, err error, events []fsEvent, before,
 				s.violate(i, "failed-reinit:mount-served-by-stale-instance",
 					fmt.Sprintf("after Init #%d failed before constructing a filesystem, Mount(%s) succeeded and was served by the instance of Init #%d (older configuration)", m.lastInitGen, mp, e.Gen), true)
 			} else {
-				s.violate(i, "mount:served-by-stale-instance", fmt.Sprintf("Mount(%s) after Init #%d was served by the instance of Init #%d", mp, m.lastInitGen, e.Gen), true)
+				s.violate(i, "mount:served-by-stale-instance", fmt.Sprintf("Mount(%s) after Init #%d (current filesystem: generation %d) was served by the instance of Init #%d", mp, m.lastInitGen, m.curGen, e.Gen), true)
 			}
 			return
 		}
@@ -803,7 +877,7 @@ func (s *seqRunner) judgeCheck(i int, o op, err error, events []fsEvent, before 
 		}
 	}
 	if len(owners) == 1 {
-		if delivered && owners[0].gen != m.lastInitGen {
+		if delivered && owners[0].gen != m.curGen {
 			s.ntReinitOld = true
 		}
 		if st == stReady && !delivered {
@@ -852,7 +926,7 @@ func (s *seqRunner) judgeUnmount(i int, o op, err error, events []fsEvent, befor
 		}
 	}
 	if len(owners) == 1 {
-		if delivered && owners[0].gen != m.lastInitGen {
+		if delivered && owners[0].gen != m.curGen {
 			s.ntReinitOld = true
 		}
 		if st == stReady && !delivered {
